@@ -102,6 +102,19 @@ func c06Nestings(call *gen.Expr) []*gen.Expr {
 		gen.Or(gen.LitJSON("null"), call),
 		gen.Func("to_array", call),
 		gen.Func("not_null", gen.Field("z"), call),
+		// the call's result as the LEFT side of a projection / index: a handler that returns a list
+		// aliasing the document (to_array, not_null, max_by over lists, values, …) feeds it to code that
+		// may treat it as a temporary
+		gen.Chain(call, gen.StFilter(gen.Current())),
+		gen.Chain(call, gen.StFilter(gen.Cmp("!=", gen.Current(), gen.Chain(call, gen.StIndex(0))))), // drops the first element, keeps later ones
+		gen.Chain(call, gen.StFilter(gen.Not(gen.Cmp("==", gen.Field("n"), gen.LitJSON("2")))), gen.StField("s")),
+		gen.Chain(call, gen.StListStar()),
+		gen.Chain(call, gen.StListStar(), gen.StField("n")),
+		gen.Chain(call, gen.StFlatten()),
+		gen.Chain(call, gen.StSliceS("1", "", "")),
+		gen.Chain(call, gen.StSliceS("", "", "-1")),
+		gen.Chain(call, gen.StStar()),
+		gen.Chain(call, gen.StIndex(0)),
 	}
 }
 
@@ -225,7 +238,7 @@ func clipStr(s string, n int) string {
 
 func c06(r *mon.Run) {
 	r.Rule = "per case a fresh document (every array with spare capacity), one goroutine deep-reading every word of it (elements up to cap, map entries) with no synchronisation to the goroutine that calls Search; under -race any write to the document is a reported data race whether or not it changes a value; plus a canonical snapshot before/after, on value and error returns alike, and the compiled AST's s-expression before/after for literal-fed calls. " +
-		"Workload: every built-in function (every typed argument template) with every parameter fed from the document x 14 nestings (standalone, piped, in multi-selects, twice, inside a projection, inside an expression reference, inside a filter, followed by an error, next to an erroring sibling …), the same with literals, 27 special compositions (sorts of sorts, failing by-expression sorts, flatten/merge/to_array aliasing), seeded random trees on typed documents. Non-trivial = distinct expressions that reached the interpreter and returned."
+		"Workload: every built-in function (every typed argument template) with every parameter fed from the document x 24 nestings (standalone, piped, in multi-selects, twice, inside a projection, inside an expression reference, inside a filter, followed by an error, next to an erroring sibling, and as the left side of every projection kind, of filters that drop elements and of an index …), the same with literals, 27 special compositions (sorts of sorts, failing by-expression sorts, flatten/merge/to_array aliasing), seeded random trees on typed documents. Non-trivial = distinct expressions that reached the interpreter and returned."
 	r.Floor = 300
 	r.Assumptions = []string{"the Go race detector reports conflicting accesses without a happens-before edge regardless of their timing; harness goroutines share nothing but the document",
 		"built with -race; without the race log (VH_RACELOG) only the snapshot monitor is active and the run is reported as inconclusive for the 'no write' clause"}
